@@ -66,6 +66,7 @@ Inductive term :=
      (* { [const] fn __do_transmute<T, N: ArrayLength>(arr: [T; plen]) -> GenericArray<T, N>
             { fbody }   body } *)
 | Unwrap (t : term)                (* t.unwrap() *)
+| UnsafeBlk (t : term)             (* unsafe { t }: transparent for evaluation; what matters is WHAT is inside *)
 | MacroCall (m : mname) (kw : Z) (s : tseq)            (* $crate::m!(@kw s); kw = 0: no keyword *)
 with tseq :=
 | SNil
@@ -146,6 +147,7 @@ Fixpoint subst (b : bind) (t : term) : term :=
   | ConstItem c i body => ConstItem c (subst b i) (subst b body)
   | LocalFn k p fb body => LocalFn k (subst b p) (subst b fb) (subst b body)
   | Unwrap u => Unwrap (subst b u)
+  | UnsafeBlk u => UnsafeBlk (subst b u)
   | MacroCall m kw s => MacroCall m kw (subst_seq b s)
   | User _ _ _ | TyLen _ | ConstPath _ | TyParamN | CRef _ | Param | UnitLit => t
   end
@@ -212,6 +214,7 @@ Fixpoint map_calls (h : mname -> Z -> tseq -> term) (t : term) : term :=
   | ConstItem c i body => ConstItem c (map_calls h i) (map_calls h body)
   | LocalFn k p fb body => LocalFn k (map_calls h p) (map_calls h fb) (map_calls h body)
   | Unwrap u => Unwrap (map_calls h u)
+  | UnsafeBlk u => UnsafeBlk (map_calls h u)
   | User _ _ _ | TyLen _ | ConstPath _ | MV _ | TyParamN | CRef _ | Param | UnitLit => t
   end
 with map_calls_seq (h : mname -> Z -> tseq -> term) (s : tseq) : tseq :=
@@ -241,6 +244,34 @@ Definition recursion_limit : nat := 128.     (* rustc's default #![recursion_lim
 
 Definition expand (d : decls) (m : mname) (i : input) : option term :=
   match expand1 d m i with Some t => Some (resolve d recursion_limit t) | None => None end.
+
+(* ---------------------------------------------------------------- unsafe hygiene (static)
+   [exposed inu t]: some fragment written by the CALLER (an opaque expression, a constant path, or a
+   metavariable that stands for one) occurs inside an `unsafe { }` block of the transcriber ([inu] = we are
+   inside one).  Such a fragment would be compiled in an unsafe context the caller did not write: unsafe
+   operations in it would be accepted silently, and the caller's own `unsafe { }` would be reported as unused. *)
+Fixpoint exposed (inu : bool) (t : term) : bool :=
+  match t with
+  | User _ _ _ | ConstPath _ | MV _ => inu
+  | TyLen _ | TyParamN | CRef _ | Param | UnitLit => false
+  | Usize ty => exposed inu ty
+  | ConstLen n => exposed inu n
+  | Call _ ty s => (match ty with Some u => exposed inu u | None => false end) || exposed_seq inu s
+  | ArrayLit s | VecLit s => exposed_seq inu s
+  | ArrayRepeat x n | VecRepeat x n => exposed inu x || exposed inu n
+  | ConstItem _ i body => exposed inu i || exposed inu body
+  (* the body of a local fn is an item: it does not inherit the unsafe context of the place it is written in *)
+  | LocalFn _ p fb body => exposed inu p || exposed false fb || exposed inu body
+  | Unwrap u => exposed inu u
+  | UnsafeBlk u => exposed true u
+  | MacroCall _ _ s => exposed_seq inu s
+  end
+with exposed_seq (inu : bool) (s : tseq) : bool :=
+  match s with
+  | SNil => false
+  | SCons t r => exposed inu t || exposed_seq inu r
+  | SRep _ body r => exposed inu body || exposed_seq inu r
+  end.
 
 (* ---------------------------------------------------------------- evaluation *)
 Inductive value :=
@@ -433,6 +464,7 @@ Fixpoint eval (d : decls) (w : world) (cx : ctx) (e : env) (t : term) (lg : list
           do (v, lg1) <- eval d w cx e u lg;
           match v with VOk b => Done (b, lg1) | VErr => Panic | _ => CompileError EType end
       end
+  | UnsafeBlk u => eval d w cx e u lg
   | Call f ty s =>
       do (vs, lg1) <- eval_seq d w cx e s lg;
       match ty with
